@@ -249,3 +249,163 @@ Print Assumptions C19_front_end_total.
 Print Assumptions C19_fe_simple_total.
 Print Assumptions C19_fe_fuzz_total_F32_F64.
 Print Assumptions C19_fe_simple_main.
+
+(** SOURCE TIE (tools/rs2coq): the four shipped copies of the string front-end (examples/simple.rs, etc/correctness/test-parse-golang/main.rs, fuzz/fuzz_targets/parse.rs, tests/integration_tests.rs) are regenerated as Gallina on every run (coq/gen/SrcFront*.v) and proved EQUAL to the hand-written model (fe_simple / fe_fuzz) the theorems above are about, for every byte list shorter than 2^64 and both build modes, given the equality rs_parse_float = parse_float of the library call (proved for valid digit strings in proofs/SrcFinal.v). *)
+From ML Require Import model.SrcLib model.SrcLibFront gen.Src gen.SrcBigint gen.SrcSlow gen.SrcParse gen.SrcFrontSimple gen.SrcFrontEtc gen.SrcFrontFuzz gen.SrcFrontTest proofs.SrcEqFront.
+
+Theorem C19_rs_simple_parse_sign_eq :
+  forall (b : build) (s : list Z), rs_simple_parse_sign b s = Ok (parse_sign s).
+Proof. exact rs_simple_parse_sign_eq. Qed.
+
+Theorem C19_rs_simple_is_digit_eq :
+  forall (b : build) (c : Z), rs_simple_is_digit b c = Ok (is_digit c).
+Proof. exact rs_simple_is_digit_eq. Qed.
+
+Theorem C19_rs_simple_consume_digits_eq :
+  forall (b : build) (s : list Z),
+         zlen s < 2 ^ 64 -> rs_simple_consume_digits b s = Ok (consume_digits s).
+Proof. exact rs_simple_consume_digits_eq. Qed.
+
+Theorem C19_rs_simple_ltrim_zero_eq :
+  forall (b : build) (s : list Z), rs_simple_ltrim_zero b s = Ok (ltrim_zero s).
+Proof. exact rs_simple_ltrim_zero_eq. Qed.
+
+Theorem C19_rs_simple_rtrim_zero_eq :
+  forall (b : build) (s : list Z), zlen s < 2 ^ 64 -> rs_simple_rtrim_zero b s = Ok (rtrim_zero s).
+Proof. exact rs_simple_rtrim_zero_eq. Qed.
+
+Theorem C19_rs_simple_parse_exponent_eq :
+  forall (b : build) (l : list Z) (pos : bool),
+         Forall digit l -> rs_simple_parse_exponent b l pos = Ok (parse_exponent l pos).
+Proof. exact rs_simple_parse_exponent_eq. Qed.
+
+Theorem C19_rs_fuzz_case_insensitive_starts_with_eq :
+  forall (b : build) (x y : list Z),
+         rs_fuzz_case_insensitive_starts_with b x y = Ok (ci_starts_with x y).
+Proof. exact rs_fuzz_case_insensitive_starts_with_eq. Qed.
+
+Theorem C19_rs_simple_parse_float_eq :
+  forall (c : config) (T : tables) (BT : btables) (L : limits) (f : format) (b : build) (s : list Z),
+         zlen s < 2 ^ 64 ->
+         pf_eq_at c T BT L f b s -> rs_simple_parse_float c T BT L f b s = fe_simple c T BT L f b s.
+Proof. exact rs_simple_parse_float_eq. Qed.
+
+Theorem C19_rs_etc_parse_float_eq :
+  forall (c : config) (T : tables) (BT : btables) (L : limits) (f : format) (b : build) (s : list Z),
+         zlen s < 2 ^ 64 ->
+         pf_eq_at c T BT L f b s -> rs_etc_parse_float c T BT L f b s = fe_simple c T BT L f b s.
+Proof. exact rs_etc_parse_float_eq. Qed.
+
+Theorem C19_rs_fuzz_parse_float_eq :
+  forall (c : config) (T : tables) (BT : btables) (L : limits) (f : format) (b : build) (s : list Z),
+         zlen s < 2 ^ 64 ->
+         pf_eq_at c T BT L f b s -> rs_fuzz_parse_float c T BT L f b s = fe_fuzz c T BT L f b s.
+Proof. exact rs_fuzz_parse_float_eq. Qed.
+
+Theorem C19_rs_test_parse_float_eq :
+  forall (c : config) (T : tables) (BT : btables) (L : limits) (f : format) (b : build) (s : list Z),
+         zlen s < 2 ^ 64 ->
+         pf_eq_at c T BT L f b s -> rs_test_parse_float c T BT L f b s = fe_fuzz c T BT L f b s.
+Proof. exact rs_test_parse_float_eq. Qed.
+
+Theorem C19_rs_simple_parse_float_eq_all :
+  forall (c : config) (T : tables) (BT : btables) (L : limits) (f : format) (b : build),
+         (forall (i fr : list Z) (e : Z), rs_parse_float c T BT L f b i fr e = parse_float c T BT L f b i fr e) ->
+         forall s : list Z, zlen s < 2 ^ 64 -> rs_simple_parse_float c T BT L f b s = fe_simple c T BT L f b s.
+Proof. exact rs_simple_parse_float_eq_all. Qed.
+
+Theorem C19_rs_etc_parse_float_eq_all :
+  forall (c : config) (T : tables) (BT : btables) (L : limits) (f : format) (b : build),
+         (forall (i fr : list Z) (e : Z), rs_parse_float c T BT L f b i fr e = parse_float c T BT L f b i fr e) ->
+         forall s : list Z, zlen s < 2 ^ 64 -> rs_etc_parse_float c T BT L f b s = fe_simple c T BT L f b s.
+Proof. exact rs_etc_parse_float_eq_all. Qed.
+
+Theorem C19_rs_fuzz_parse_float_eq_all :
+  forall (c : config) (T : tables) (BT : btables) (L : limits) (f : format) (b : build),
+         (forall (i fr : list Z) (e : Z), rs_parse_float c T BT L f b i fr e = parse_float c T BT L f b i fr e) ->
+         forall s : list Z, zlen s < 2 ^ 64 -> rs_fuzz_parse_float c T BT L f b s = fe_fuzz c T BT L f b s.
+Proof. exact rs_fuzz_parse_float_eq_all. Qed.
+
+Theorem C19_rs_test_parse_float_eq_all :
+  forall (c : config) (T : tables) (BT : btables) (L : limits) (f : format) (b : build),
+         (forall (i fr : list Z) (e : Z), rs_parse_float c T BT L f b i fr e = parse_float c T BT L f b i fr e) ->
+         forall s : list Z, zlen s < 2 ^ 64 -> rs_test_parse_float c T BT L f b s = fe_fuzz c T BT L f b s.
+Proof. exact rs_test_parse_float_eq_all. Qed.
+
+Print Assumptions C19_rs_simple_parse_sign_eq.
+Print Assumptions C19_rs_simple_is_digit_eq.
+Print Assumptions C19_rs_simple_consume_digits_eq.
+Print Assumptions C19_rs_simple_ltrim_zero_eq.
+Print Assumptions C19_rs_simple_rtrim_zero_eq.
+Print Assumptions C19_rs_simple_parse_exponent_eq.
+Print Assumptions C19_rs_fuzz_case_insensitive_starts_with_eq.
+Print Assumptions C19_rs_simple_parse_float_eq.
+Print Assumptions C19_rs_etc_parse_float_eq.
+Print Assumptions C19_rs_fuzz_parse_float_eq.
+Print Assumptions C19_rs_test_parse_float_eq.
+Print Assumptions C19_rs_simple_parse_float_eq_all.
+Print Assumptions C19_rs_etc_parse_float_eq_all.
+Print Assumptions C19_rs_fuzz_parse_float_eq_all.
+Print Assumptions C19_rs_test_parse_float_eq_all.
+
+(** UNCONDITIONAL SOURCE TIE (proofs/SrcFinal.v): with the library equality rs_parse_float_eq_bytes the four regenerated front-end copies equal the model for arbitrary byte strings shorter than 2^63, and the value theorem holds for the regenerated examples/simple.rs and its etc/ copy. *)
+From ML Require Import model.SrcLib model.SrcLibFront gen.Src gen.SrcBigint gen.SrcSlow gen.SrcParse gen.SrcFrontSimple gen.SrcFrontEtc gen.SrcFrontFuzz gen.SrcFrontTest proofs.SrcEqParse proofs.SrcEqSlow proofs.SrcEqFront proofs.SrcFinal.
+
+Theorem C19_rs_simple_parse_float_eq_bytes :
+  forall (c : config) (f : format) (b : build) (s : list Z),
+         f = F32 \/ f = F64 ->
+         zlen s < 2 ^ 63 ->
+         rs_simple_parse_float c TABLES BTABLES LIMITS f b s = fe_simple c TABLES BTABLES LIMITS f b s.
+Proof. exact rs_simple_parse_float_eq_bytes. Qed.
+
+Theorem C19_rs_etc_parse_float_eq_bytes :
+  forall (c : config) (f : format) (b : build) (s : list Z),
+         f = F32 \/ f = F64 ->
+         zlen s < 2 ^ 63 ->
+         rs_etc_parse_float c TABLES BTABLES LIMITS f b s = fe_simple c TABLES BTABLES LIMITS f b s.
+Proof. exact rs_etc_parse_float_eq_bytes. Qed.
+
+Theorem C19_rs_fuzz_parse_float_eq_bytes :
+  forall (c : config) (f : format) (b : build) (s : list Z),
+         f = F32 \/ f = F64 ->
+         zlen s < 2 ^ 63 ->
+         rs_fuzz_parse_float c TABLES BTABLES LIMITS f b s = fe_fuzz c TABLES BTABLES LIMITS f b s.
+Proof. exact rs_fuzz_parse_float_eq_bytes. Qed.
+
+Theorem C19_rs_test_parse_float_eq_bytes :
+  forall (c : config) (f : format) (b : build) (s : list Z),
+         f = F32 \/ f = F64 ->
+         zlen s < 2 ^ 63 ->
+         rs_test_parse_float c TABLES BTABLES LIMITS f b s = fe_fuzz c TABLES BTABLES LIMITS f b s.
+Proof. exact rs_test_parse_float_eq_bytes. Qed.
+
+Theorem C19_rs_simple_parse_float_correct :
+  forall (c : config) (f : format) (b : build) (s : list Z),
+         In c ALL_CONFIGS ->
+         f = F32 \/ f = F64 ->
+         zlen s <= 2 ^ 28 ->
+         let x := lex s in
+         rs_simple_parse_float c TABLES BTABLES LIMITS f b s =
+         Ok
+           (let v := Round.RN f (dec_value (lx_int x) (lx_frac x) (lx_exp x)) in
+            if lx_pos x then v else f_neg f v, lx_rest x).
+Proof. exact rs_simple_parse_float_correct. Qed.
+
+Theorem C19_rs_etc_parse_float_correct :
+  forall (c : config) (f : format) (b : build) (s : list Z),
+         In c ALL_CONFIGS ->
+         f = F32 \/ f = F64 ->
+         zlen s <= 2 ^ 28 ->
+         let x := lex s in
+         rs_etc_parse_float c TABLES BTABLES LIMITS f b s =
+         Ok
+           (let v := Round.RN f (dec_value (lx_int x) (lx_frac x) (lx_exp x)) in
+            if lx_pos x then v else f_neg f v, lx_rest x).
+Proof. exact rs_etc_parse_float_correct. Qed.
+
+Print Assumptions C19_rs_simple_parse_float_eq_bytes.
+Print Assumptions C19_rs_etc_parse_float_eq_bytes.
+Print Assumptions C19_rs_fuzz_parse_float_eq_bytes.
+Print Assumptions C19_rs_test_parse_float_eq_bytes.
+Print Assumptions C19_rs_simple_parse_float_correct.
+Print Assumptions C19_rs_etc_parse_float_correct.
